@@ -10,7 +10,7 @@ mod kx_identity_doc {
     }
 
     #[kani::proof]
-    #[kani::unwind(6)]
+    #[kani::unwind(34)]
     fn delegates_new_bounded() {
         let n: usize = kani::any();
         kani::assume(n <= 4);
